@@ -147,6 +147,8 @@ def build_field(df, me, f, emb, alt=0):
             foreign = None if alt % 2 else "q"
             kw = dict(vdims=names, vdim_mapping=fldmod.scramble(
                 {names[k]: (dims[mp[k] - 1] if mp[k] else foreign) for k in range(nv)}, alt // 2 + mp[0]))
+    if kw.get("vdim_mapping"):
+        return fldmod.labelled_field(df, mesh, nv, src_array(me, f), kw["vdims"], kw["vdim_mapping"], alt + sum(mp))
     return df.Field(mesh, nvdim=nv, value=src_array(me, f), **kw)
 
 
